@@ -22,6 +22,7 @@ import (
 	"fmt"
 	"io"
 	"math"
+	"math/big"
 	"strconv"
 	"strings"
 	"time"
@@ -489,6 +490,11 @@ func c06SpecAux(a []byte) (string, bool) {
 	return "", false
 }
 
+// POS and PNEXT are 1-based in SAM (no wrap-around: the specification's integers are not Go ints)
+func c06Plus1(v int) string {
+	return new(big.Int).Add(big.NewInt(int64(v)), big.NewInt(1)).String()
+}
+
 func c06SpecLine(hd []c06Ref, rr c06Rec, hexFlags bool) ([]byte, bool) {
 	var f []string
 	f = append(f, string(unhex(rr.Name)))
@@ -503,7 +509,7 @@ func c06SpecLine(hd []c06Ref, rr c06Rec, hexFlags bool) ([]byte, bool) {
 		}
 		return string(unhex(hd[i].Name))
 	}
-	f = append(f, name(rr.Ref), strconv.Itoa(rr.Pos+1), strconv.Itoa(int(rr.MapQ)))
+	f = append(f, name(rr.Ref), c06Plus1(rr.Pos), strconv.Itoa(int(rr.MapQ)))
 	ops := c16ParseCigar(rr.Cigar)
 	if len(ops) == 0 {
 		f = append(f, "*")
@@ -525,7 +531,7 @@ func c06SpecLine(hd []c06Ref, rr c06Rec, hexFlags bool) ([]byte, bool) {
 	default:
 		f = append(f, name(rr.Mate))
 	}
-	f = append(f, strconv.Itoa(rr.MatePos+1), strconv.Itoa(rr.TLen))
+	f = append(f, c06Plus1(rr.MatePos), strconv.Itoa(rr.TLen))
 	if rr.Seq == "-" || rr.Seq == "" {
 		f = append(f, "*")
 	} else {
@@ -805,13 +811,12 @@ func c06RecordOracle(c *ctx, hd []c06Ref, rr c06Rec, h *sam.Header, refs []*sam.
 	}
 }
 
-// c06BamOracle: records written to BAM and read back format to the same SAM lines.
-func c06BamOracle(c *ctx, hd []c06Ref, recs []c06Rec) {
-	res := c.res
-	in := c06Input{Kind: "bam", Header: hd, Recs: recs}
+// c06BamTrip writes the records to BAM in memory and reads them back: "" when every record formats to
+// the same SAM line, else a failure class and a description.
+func c06BamTrip(hd []c06Ref, recs []c06Rec) (cls, what string) {
 	h, refs, err := c06MakeHeader(hd)
 	if err != nil {
-		return
+		return "", ""
 	}
 	var want [][]byte
 	var got [][]byte
@@ -865,14 +870,11 @@ func c06BamOracle(c *ctx, hd []c06Ref, recs []c06Rec) {
 	})
 	switch {
 	case o.timedOut:
-		res.fail("c06.bam.hang", "BAM write+read of expressible records does not return", in)
-		return
+		return "hang", "BAM write+read of expressible records does not return"
 	case o.panicked:
-		res.fail("c06.bam.panic:"+topRepoFrame(o.stack), "BAM write+read panics: "+o.panicVal, in)
-		return
+		return "panic:" + topRepoFrame(o.stack), "BAM write+read panics: " + o.panicVal
 	case werr != nil:
-		res.fail("c06.bam.writeerr", "BAM write fails: "+werr.Error(), in)
-		return
+		return "writeerr", "BAM write fails: " + werr.Error()
 	}
 	for i := range want {
 		if i >= len(got) || !bytes.Equal(want[i], got[i]) {
@@ -883,17 +885,51 @@ func c06BamOracle(c *ctx, hd []c06Ref, recs []c06Rec) {
 			fld := c06FirstDiffField(want[i], g)
 			what := fmt.Sprintf("record %d read back from BAM formats differently at %s: wrote %q, read %q", i, fld, want[i], g)
 			if rerr != nil {
-				what += " (read error: " + rerr.Error() + ")"
+				return "readerr", what + " (read error: " + rerr.Error() + ")"
 			}
-			res.fail("c06.bam.line."+fld, what, in)
-			return
+			return "line." + fld, what
 		}
 	}
 	if rerr != nil {
-		res.fail("c06.bam.readerr", "BAM read fails: "+rerr.Error(), in)
+		return "readerr", "BAM read fails: " + rerr.Error()
 	} else if len(got) != len(want) {
-		res.fail("c06.bam.count", fmt.Sprintf("wrote %d records, read %d", len(want), len(got)), in)
+		return "count", fmt.Sprintf("wrote %d records, read %d", len(want), len(got))
 	}
+	return "", ""
+}
+
+// c06BamOracle: records written to BAM and read back format to the same SAM lines.  A failing batch is
+// narrowed to one record and, where one aux field alone reproduces it, to that field: the signature names
+// the field's type (".zero" when an H value contains a zero byte).
+func c06BamOracle(c *ctx, hd []c06Ref, recs []c06Rec) {
+	cls, what := c06BamTrip(hd, recs)
+	if cls == "" {
+		return
+	}
+	in := c06Input{Kind: "bam", Header: hd, Recs: recs}
+	for _, rr := range recs {
+		if c1, w1 := c06BamTrip(hd, []c06Rec{rr}); c1 != "" {
+			cls, what, in.Recs = c1, w1, []c06Rec{rr}
+			for _, a := range rr.Aux {
+				one := rr
+				one.Aux = []string{a}
+				if c2, w2 := c06BamTrip(hd, []c06Rec{one}); c2 != "" {
+					x, _ := c06DecodeAux(unhex(a))
+					t := string(x.typ)
+					if x.typ == 'B' {
+						t += string(x.sub)
+					}
+					if x.typ == 'H' && bytes.IndexByte(x.data, 0) >= 0 {
+						t += ".zero"
+					}
+					cls, what, in.Recs = "aux."+t, w2, []c06Rec{one}
+					break
+				}
+			}
+			break
+		}
+	}
+	c.res.fail("c06.bam."+cls, what, in)
 }
 
 // c06RunReader: successive Read results, in the driver's syntax.
@@ -1366,7 +1402,10 @@ var c06CigarTexts = []string{"*", "", "10M", "0M", "M", "10", "10M5", "5", "55",
 func c06PickS(rnd *Rand, xs []string) string { return xs[rnd.intn(len(xs))] }
 
 // c06GenAuxText: aux text, mostly well-formed per type, boundary values, and a share of malformed ones.
-func c06GenAuxText(rnd *Rand) string {
+func c06GenAuxText(rnd *Rand, validBias int) string {
+	if rnd.coin(validBias, 10) {
+		return c06LibAuxText(rnd)
+	}
 	tag := c06GenTag(rnd)
 	t := string(tag[:])
 	joinN := func(xs []string, n int) string {
@@ -1411,26 +1450,30 @@ func c06GenAuxText(rnd *Rand) string {
 	case 13:
 		return c06PickS(rnd, []string{"", "X", "XY", "XY:", "XY:i", "XY:i:", "XYi:1:", "XY:i;1", "XY;i:1", "X:i:12", "XYZ:i:1", ":::::"})
 	}
-	// the text of a generated well-formed aux, as the library itself prints it
+	return c06LibAuxText(rnd)
+}
+
+// the text of a generated well-formed aux, as the library itself prints it
+func c06LibAuxText(rnd *Rand) string {
 	r := &sam.Record{Name: "q", AuxFields: sam.AuxFields{sam.Aux(c06GenAux(rnd))}}
 	line, _, _ := c06Marshal(r, 0)
 	f := bytes.Split(line, []byte{'\t'})
 	if len(f) > 11 {
 		return string(f[11])
 	}
-	return t + ":i:1"
+	return "XX:i:1"
 }
 
 // c06GenLine: a SAM line assembled field by field (mostly valid values, boundary texts), optionally mutated.
 func c06GenLine(rnd *Rand, hd []c06Ref) []byte {
 	name := func() string {
 		if len(hd) == 0 || rnd.coin(1, 8) {
-			return c06PickS(rnd, []string{"*", "*", "=", "nosuch", ""})
+			return c06PickS(rnd, []string{"*", "*", "*", "*", "*", "=", "nosuch", ""})
 		}
 		return string(unhex(hd[rnd.intn(len(hd))].Name))
 	}
 	intText := func() string {
-		if rnd.coin(1, 4) {
+		if rnd.coin(1, 10) {
 			return c06PickS(rnd, c06IntTexts)
 		}
 		return strconv.Itoa(c06GenPos(rnd))
@@ -1449,7 +1492,7 @@ func c06GenLine(rnd *Rand, hd []c06Ref) []byte {
 		seqT = c06PickS(rnd, []string{"*", "*", ""})
 	}
 	cig := "*"
-	switch rnd.intn(5) {
+	switch rnd.intn(8) {
 	case 0:
 		cig = c06PickS(rnd, c06CigarTexts)
 	case 1, 2:
@@ -1460,7 +1503,7 @@ func c06GenLine(rnd *Rand, hd []c06Ref) []byte {
 				cig = fmt.Sprintf("%d%s%d%s%dM", k, c06PickS(rnd, []string{"S", "M", "I", "=", "X", "H"}), rnd.rng(0, 300000000), c06PickS(rnd, []string{"D", "N", "P", "B", "H", "S"}), seqLen-k)
 			}
 		}
-	case 3:
+	case 3, 4, 5:
 		ops := c06GenCigar(rnd, seqLen)
 		if len(ops) > 0 {
 			cig = ""
@@ -1484,11 +1527,11 @@ func c06GenLine(rnd *Rand, hd []c06Ref) []byte {
 		qual = c06PickS(rnd, []string{"*", "", "!", "**", "\x01\x20", "~~~"})
 	}
 	flag := strconv.Itoa(rnd.intn(65536))
-	if rnd.coin(1, 4) {
+	if rnd.coin(1, 6) {
 		flag = c06PickS(rnd, c06FlagTexts)
 	}
 	mapq := strconv.Itoa(rnd.intn(256))
-	if rnd.coin(1, 6) {
+	if rnd.coin(1, 10) {
 		mapq = c06PickS(rnd, []string{"0", "255", "256", "-1", "+1", "0x1", "01", "", "1_0"})
 	}
 	rn := name()
@@ -1499,7 +1542,7 @@ func c06GenLine(rnd *Rand, hd []c06Ref) []byte {
 	f := []string{string(c06GenQName(rnd)), flag, rn, intText(), mapq, cig, mn, intText(), intText(), seqT, qual}
 	na := rnd.pick([]int{0, 0, 1, 2, 4})
 	for i := 0; i < na; i++ {
-		f = append(f, c06GenAuxText(rnd))
+		f = append(f, c06GenAuxText(rnd, 7))
 	}
 	line := []byte(strings.Join(f, "\t"))
 	if rnd.coin(1, 6) {
@@ -1870,7 +1913,7 @@ func checkC06(c *ctx) {
 		}
 	}
 	for i := 0; i < nAux; i++ {
-		t := c06GenAuxText(rnd)
+		t := c06GenAuxText(rnd, 2)
 		x.auxCase([]byte(t))
 		r.eval("aux:"+t, len(t) >= 5)
 	}
